@@ -39,7 +39,9 @@ PROP = "C10"
 RULE = ("cases = generated particle lists (1..100 particles; stratified over orientation kinds incl. gimbal lock, position "
         "kinds incl. negative/large/half-integer ties, parents with all shifts exactly 0, identifier/index layouts) x symmetry order n (1..64; divisors and "
         "non-divisors of 360) x spelling ('Cn','cn',int,integral float,np.int64,np.float64; spelling of case i = (i // #classes) mod 6) x offset "
-        "s (generic, in-plane, on-axis, zero, integer lists/tuples); non-trivial = n >= 2 and s has a non-zero in-plane "
+        "s (generic, in-plane, on-axis, zero, integer lists/tuples); plus glued lists with repeated index labels, theta outside [0,180], "
+        "block-boundary row counts (N*n = 2**k-1, 2**k, 2**k+1; 100 x 64), ids/coordinates at 1e5, 2**24, 2**31, 2**53 and positions an ulp from "
+        "a rounding tie, exact duplicate poses, and three-step histories on ONE Motl object (expand, edit in place, expand again); non-trivial = n >= 2 and s has a non-zero in-plane "
         "component (n distinct poses at n distinct places); distinct by digest of (n, spelling, #particles, s, class, first pose); "
         "the exhaustive sweep over n is reported separately under observed.n_values_covered")
 ASSUMPTIONS = [
@@ -91,7 +93,7 @@ def plan(tier):
     # update_coordinates counted here is called directly by run_case / extra
     if tier == "quick":
         call_min = 1500
-        return dict(n_cases=20 * len(CLASSES), shards=1, classes=CLASSES, timeout_s=900,
+        return dict(n_cases=20 * len(CLASSES), shards=3, classes=CLASSES, timeout_s=900,
                     min_evals=dict({c: call_min for c in CLAUSES}, recentre=800, back_to_centre=call_min, z_orbit=call_min,
                                    spelling_agree=450, on_axis_coincide=300, repeat_agree=30),
                     min_anchor_calls={"Motl.split_in_asymmetric_subunits": call_min})
